@@ -409,7 +409,7 @@ func (e *Enc) iteVal(c T, a, b Val) Val {
 			if x.K == pHeap && y.K == pHeap && len(x.Path) == 0 && len(y.Path) == 0 {
 				return Ptr{K: pHeap, Ref: ite(c, x.Ref, y.Ref), Obj: x.Obj, Elem: x.Elem}
 			}
-			if x.K == pElem && y.K == pElem {
+			if x.K == pElem && y.K == pElem && len(x.Path) == 0 && len(y.Path) == 0 {
 				return Ptr{K: pElem, Sl: e.iteVal(c, x.Sl, y.Sl).(Sl), Idx: ite(c, x.Idx, y.Idx), Elem: x.Elem}
 			}
 		}
